@@ -52,9 +52,11 @@ theorem postRecv_ack_idle (m : Mrp) (bc k : Nat) (hr : m.retrans = none) :
 /-! ## The invariant -/
 
 structure Good (a0 : Nat) (s : Sys) (accB accA : List Nat) : Prop where
-  enc : s.enc = true
+  /-- on an unsecured session at most `L + 1` messages have been started -/
+  encB : s.enc = false → s.next ≤ L + 1
   winB : C04.Inv s.bRx accB
-  winA : C04.Inv s.aRx accA
+  /-- (the sender's own window matters only for the liveness statements, stated for secure sessions) -/
+  winA : s.enc = true → C04.Inv s.aRx accA
   /-- B's window has accepted exactly the counters of the messages its application has seen -/
   accApp : accB = s.app.map (a0 + ·)
   aCtr : s.aCtr = a0 + s.next
@@ -63,7 +65,7 @@ structure Good (a0 : Nat) (s : Sys) (accB accA : List Nat) : Prop where
   netAck : ∀ bc k, Dg.ack bc k ∈ s.net → k ∈ accB ∧ bc < s.bCtr
   owed : ∀ a, s.bMrp.ack = some a → a.ctr ∈ accB
   /-- A has only seen counters B has used -/
-  accALt : ∀ b ∈ accA, b < s.bCtr
+  accALt : s.enc = true → ∀ b ∈ accA, b < s.bCtr
   appLt : ∀ i ∈ s.app, i < s.next
   /-- every message before the last started one has reached B's application -/
   done : ∀ j, j + 1 < s.next → j ∈ s.app
@@ -75,16 +77,16 @@ structure Good (a0 : Nat) (s : Sys) (accB accA : List Nat) : Prop where
   /-- success only if B's stack accepted the message -/
   resOk : ∀ i, (i, true) ∈ s.res → i ∈ s.app
 
-theorem good_init (a0 b0 : Nat) (sai : Option Nat) : Good a0 (init a0 b0 true sai) [] [] := by
+theorem good_init (a0 b0 : Nat) (enc : Bool) (sai : Option Nat) : Good a0 (init a0 b0 enc sai) [] [] := by
   refine
-    { enc := rfl, winB := ?_, winA := ?_, accApp := rfl, aCtr := rfl, netData := ?_, netAck := ?_, owed := ?_,
+    { encB := fun _ => Nat.zero_le _, winB := ?_, winA := fun _ => ?_, accApp := rfl, aCtr := rfl, netData := ?_, netAck := ?_, owed := ?_,
       accALt := ?_, appLt := ?_, done := ?_, fin := ?_, curSome := ?_, curNone := ?_, sorted := ?_, resOk := ?_ }
   · refine ⟨fun _ => rfl, ?_, ?_, ?_⟩ <;> simp [init, RxState.unsynced]
   · refine ⟨fun _ => rfl, ?_, ?_, ?_⟩ <;> simp [init, RxState.unsynced]
   · intro c i h; simp [init] at h
   · intro bc k h; simp [init] at h
   · intro a h; simp [init] at h
-  · intro b h; simp at h
+  · intro _ b h; simp at h
   · intro i h; simp [init] at h
   · intro j h; simp [init] at h
   · intro j h; simp [init] at h
@@ -152,16 +154,32 @@ theorem good_send {a0 : Nat} {s s' : Sys} {accB accA : List Nat} (g : Good a0 s 
   · rename_i hguard
     simp only [Bool.or_eq_true, Bool.not_eq_true', not_or, Bool.not_eq_true, Option.isSome_eq_false_iff,
       Option.isNone_iff_eq_none] at hguard
-    obtain ⟨⟨hcur, hok⟩, hrt⟩ := hguard
+    obtain ⟨⟨⟨hcur, hok⟩, hrt⟩, hbound⟩ := hguard
+    have hbound : s.enc = true ∨ s.next ≤ L := by
+      cases he : s.enc with
+      | true => exact Or.inl rfl
+      | false =>
+        right
+        have : (s.enc || decide (s.next ≤ L)) = true := by
+          cases hb : (s.enc || decide (s.next ≤ L)) with
+          | true => rfl
+          | false => exact absurd hb hbound
+        simpa [he] using this
     have hok : s.allOk = true := by simpa using hok
     have hp := preSend_first s.aMrp s.aCtr none s.sai hrt
     simp only [hp.2] at h
     cases h
     refine
-      { enc := g.enc, winB := g.winB, winA := g.winA, accApp := g.accApp, aCtr := ?_, netData := ?_,
+      { encB := ?_, winB := g.winB, winA := g.winA, accApp := g.accApp, aCtr := ?_, netData := ?_,
         netAck := fun bc k hm => g.netAck bc k (by simpa using hm), owed := g.owed, accALt := g.accALt,
         appLt := ?_, done := ?_, fin := ?_,
         curSome := ?_, curNone := ?_, sorted := g.sorted, resOk := g.resOk }
+    · intro he
+      have he' : s.enc = false := he
+      show s.next + 1 ≤ L + 1
+      rcases hbound with h1 | h1
+      · rw [he'] at h1; cases h1
+      · omega
     · show s.aCtr + 1 = a0 + (s.next + 1)
       rw [g.aCtr]; omega
     · intro c i hm
@@ -218,7 +236,7 @@ theorem good_resend {a0 : Nat} {s s' : Sys} {accB accA : List Nat} (g : Good a0 
       · cases h
       · cases h
         refine
-          { enc := g.enc, winB := g.winB, winA := g.winA, accApp := g.accApp, aCtr := g.aCtr, netData := ?_,
+          { encB := g.encB, winB := g.winB, winA := g.winA, accApp := g.accApp, aCtr := g.aCtr, netData := ?_,
             netAck := fun bc k hm => g.netAck bc k (by simpa using hm), owed := g.owed, accALt := g.accALt,
             appLt := g.appLt, done := g.done, fin := g.fin,
             curSome := ?_, curNone := ?_, sorted := g.sorted, resOk := g.resOk }
@@ -243,7 +261,7 @@ theorem good_resend {a0 : Nat} {s s' : Sys} {accB accA : List Nat} (g : Good a0 
       split at h
       · cases h
         refine
-          { enc := g.enc, winB := g.winB, winA := g.winA, accApp := g.accApp, aCtr := g.aCtr, netData := g.netData,
+          { encB := g.encB, winB := g.winB, winA := g.winA, accApp := g.accApp, aCtr := g.aCtr, netData := g.netData,
             netAck := g.netAck, owed := g.owed, accALt := g.accALt, appLt := g.appLt, done := g.done, fin := ?_,
             curSome := ?_, curNone := ?_, sorted := g.sorted, resOk := ?_ }
         · intro j hj
@@ -267,7 +285,7 @@ theorem good_resend {a0 : Nat} {s s' : Sys} {accB accA : List Nat} (g : Good a0 
 
 theorem good_net_sub {a0 : Nat} {s : Sys} {accB accA : List Nat} (g : Good a0 s accB accA) (net' : List Dg)
     (hsub : ∀ d, d ∈ net' → d ∈ s.net) : Good a0 { s with net := net' } accB accA :=
-  { enc := g.enc, winB := g.winB, winA := g.winA, accApp := g.accApp, aCtr := g.aCtr,
+  { encB := g.encB, winB := g.winB, winA := g.winA, accApp := g.accApp, aCtr := g.aCtr,
     netData := fun c i hm => g.netData c i (hsub _ hm), netAck := fun bc k hm => g.netAck bc k (hsub _ hm),
     owed := g.owed, accALt := g.accALt, appLt := g.appLt, done := g.done, fin := g.fin, curSome := g.curSome,
     curNone := g.curNone, sorted := g.sorted, resOk := g.resOk }
@@ -287,7 +305,7 @@ theorem good_ackB {a0 : Nat} {s s' : Sys} {accB accA : List Nat} (g : Good a0 s 
       simp only [hack, Option.map_some] at h
       cases h
       refine
-        { enc := g.enc, winB := g.winB, winA := g.winA, accApp := g.accApp, aCtr := g.aCtr, netData := ?_,
+        { encB := g.encB, winB := g.winB, winA := g.winA, accApp := g.accApp, aCtr := g.aCtr, netData := ?_,
           netAck := ?_, owed := ?_, accALt := ?_, appLt := g.appLt, done := g.done, fin := g.fin,
           curSome := g.curSome, curNone := g.curNone, sorted := g.sorted, resOk := g.resOk }
       · intro c i hm
@@ -305,29 +323,29 @@ theorem good_ackB {a0 : Nat} {s s' : Sys} {accB accA : List Nat} (g : Good a0 s 
         simp only [Option.map_some, Option.some.injEq] at hx'
         subst hx'
         exact g.owed a hack
-      · intro b hb
-        exact Nat.lt_succ_of_lt (g.accALt b hb)
+      · intro he b hb
+        exact Nat.lt_succ_of_lt (g.accALt he b hb)
 
 
-theorem recvData_rej (s : Sys) (c i : Nat) (henc : s.enc = true) (hw : (postRecvPlain s.bRx c true).2 = false) :
-    s.recvData c i = { s with bRx := (postRecvPlain s.bRx c true).1, bCtr := s.bCtr + 1, net := Dg.ack s.bCtr c :: s.net } := by
-  unfold Sys.recvData window
-  simp [henc, hw]
+theorem recvData_rej (s : Sys) (c i : Nat) (hw : (window s.bRx c s.enc).2 = false) :
+    s.recvData c i = { s with bRx := (window s.bRx c s.enc).1, bCtr := s.bCtr + 1, net := Dg.ack s.bCtr c :: s.net } := by
+  unfold Sys.recvData
+  simp [hw]
 
-theorem recvData_acc (s : Sys) (c i : Nat) (henc : s.enc = true) (hw : (postRecvPlain s.bRx c true).2 = true) :
-    s.recvData c i = { s with bRx := (postRecvPlain s.bRx c true).1, bMrp := (s.bMrp.postRecv c none true 0).1, app := i :: s.app } := by
-  unfold Sys.recvData window
-  simp [henc, hw]
+theorem recvData_acc (s : Sys) (c i : Nat) (hw : (window s.bRx c s.enc).2 = true) :
+    s.recvData c i = { s with bRx := (window s.bRx c s.enc).1, bMrp := (s.bMrp.postRecv c none true 0).1, app := i :: s.app } := by
+  unfold Sys.recvData
+  simp [hw]
 
-theorem recvAck_rej (s : Sys) (bc k : Nat) (henc : s.enc = true) (hw : (postRecvPlain s.aRx bc true).2 = false) :
-    s.recvAck bc k = { s with aRx := (postRecvPlain s.aRx bc true).1 } := by
-  unfold Sys.recvAck window
-  simp [henc, hw]
+theorem recvAck_rej (s : Sys) (bc k : Nat) (hw : (window s.aRx bc s.enc).2 = false) :
+    s.recvAck bc k = { s with aRx := (window s.aRx bc s.enc).1 } := by
+  unfold Sys.recvAck
+  simp [hw]
 
-theorem recvAck_acc (s : Sys) (bc k : Nat) (henc : s.enc = true) (hw : (postRecvPlain s.aRx bc true).2 = true) :
-    s.recvAck bc k = s.afterAck (postRecvPlain s.aRx bc true).1 (s.aMrp.postRecv bc (some k) false 0) := by
-  unfold Sys.recvAck window
-  simp [henc, hw]
+theorem recvAck_acc (s : Sys) (bc k : Nat) (hw : (window s.aRx bc s.enc).2 = true) :
+    s.recvAck bc k = s.afterAck (window s.aRx bc s.enc).1 (s.aMrp.postRecv bc (some k) false 0) := by
+  unfold Sys.recvAck
+  simp [hw]
 
 theorem afterAck_err (s : Sys) (rx : RxState) (p : Mrp × Option Err) (e : Err) (h2 : p.2 = some e) :
     s.afterAck rx p = { s with aRx := rx, aMrp := p.1 } := by
@@ -345,11 +363,36 @@ theorem afterAck_done (s : Sys) (rx : RxState) (p : Mrp × Option Err) (i : Nat)
   unfold Sys.afterAck
   simp [h2, hc, hr]
 
+/-- the window of an unsecured session decides like the secure one for everything the sender can
+have sent so far (at most `L + 1` messages) -/
+theorem window_data_eq {a0 : Nat} {s : Sys} {accB accA : List Nat} (g : Good a0 s accB accA) (c i : Nat)
+    (hc : c = a0 + i) : window s.bRx c s.enc = postRecvPlain s.bRx c true := by
+  unfold window
+  cases he : s.enc with
+  | true => rfl
+  | false =>
+    unfold postRecvPlain
+    by_cases h1 : s.bRx.synced = false
+    · simp [h1]
+    · have hs : s.bRx.synced = true := by simpa using h1
+      have hmax := g.winB.maxIn hs
+      rw [g.accApp] at hmax
+      obtain ⟨j, hj, hje⟩ := List.mem_map.1 hmax
+      have hjn := g.appLt j hj
+      have hb := g.encB he
+      have hle : s.bRx.max - c ≤ L := by omega
+      by_cases h2 : c = s.bRx.max
+      · simp [h1, h2]
+      · by_cases h3 : c > s.bRx.max
+        · simp [h1, h2, h3]
+        · simp [h1, h2, h3, hle]
+
 /-- B's stack takes a data message that is in flight -/
 theorem good_recvData {a0 : Nat} {s : Sys} {accB accA : List Nat} (g : Good a0 s accB accA) (c i : Nat)
     (hc : c = a0 + i) (hi : i < s.next) :
     ∃ accB', Good a0 (s.recvData c i) accB' accA := by
   have href := C04.step_refines s.bRx accB c g.winB
+  have heq := window_data_eq g c i hc
   cases hw : (postRecvPlain s.bRx c true).2 with
   | false =>
     -- rejected by the window: acknowledged afresh
@@ -357,11 +400,11 @@ theorem good_recvData {a0 : Nat} {s : Sys} {accB accA : List Nat} (g : Good a0 s
     simp only [Bool.false_eq_true, ↓reduceIte] at href
     have hin : c ∈ accB := rejected_was_accepted g c i hc hi href.1.symm
     refine ⟨accB, ?_⟩
-    rw [recvData_rej s c i g.enc hw]
+    rw [recvData_rej s c i (by rw [heq]; exact hw), heq]
     refine
-      { enc := g.enc, winB := href.2, winA := g.winA, accApp := g.accApp, aCtr := g.aCtr,
+      { encB := g.encB, winB := href.2, winA := g.winA, accApp := g.accApp, aCtr := g.aCtr,
         netData := fun c' i' hm => g.netData c' i' (by simpa using hm), netAck := ?_, owed := g.owed,
-        accALt := fun b hb => Nat.lt_succ_of_lt (g.accALt b hb), appLt := g.appLt, done := g.done, fin := g.fin,
+        accALt := fun he b hb => Nat.lt_succ_of_lt (g.accALt he b hb), appLt := g.appLt, done := g.done, fin := g.fin,
         curSome := g.curSome, curNone := g.curNone, sorted := g.sorted, resOk := g.resOk }
     intro bc k hm
     simp only [List.mem_cons, Dg.ack.injEq] at hm
@@ -374,9 +417,9 @@ theorem good_recvData {a0 : Nat} {s : Sys} {accB accA : List Nat} (g : Good a0 s
     simp only [↓reduceIte] at href
     have hnew := accepted_is_newest g c i hc hi href.1.symm
     refine ⟨c :: accB, ?_⟩
-    rw [recvData_acc s c i g.enc hw]
+    rw [recvData_acc s c i (by rw [heq]; exact hw), heq]
     refine
-      { enc := g.enc, winB := href.2, winA := g.winA, accApp := ?_, aCtr := g.aCtr, netData := g.netData,
+      { encB := g.encB, winB := href.2, winA := g.winA, accApp := ?_, aCtr := g.aCtr, netData := g.netData,
         netAck := fun bc k hm => ⟨List.mem_cons_of_mem _ (g.netAck bc k hm).1, (g.netAck bc k hm).2⟩, owed := ?_,
         accALt := g.accALt, appLt := ?_, done := ?_, fin := g.fin,
         curSome := g.curSome, curNone := g.curNone, sorted := ?_, resOk := ?_ }
@@ -400,82 +443,111 @@ theorem good_recvData {a0 : Nat} {s : Sys} {accB accA : List Nat} (g : Good a0 s
     · intro j hj
       exact List.mem_cons_of_mem _ (g.resOk j hj)
 
+/-- the part of `good_recvAck` that does not depend on what A's window decided: the effect of
+`ReliableMessage::post_recv` with an acknowledgement of an accepted counter -/
+theorem good_afterAck {a0 : Nat} {s : Sys} {accB accA accA' : List Nat} (g : Good a0 s accB accA)
+    (rx : RxState) (bc k : Nat) (hk : k ∈ accB)
+    (hwin : s.enc = true → C04.Inv rx accA') (hlt : s.enc = true → ∀ b ∈ accA', b < s.bCtr) :
+    Good a0 (s.afterAck rx (s.aMrp.postRecv bc (some k) false 0)) accB accA' := by
+  cases hcur : s.cur with
+  | none =>
+    have hrt := g.curNone hcur
+    have hp := postRecv_ack_idle s.aMrp bc k hrt
+    rw [afterAck_idle s _ _ hp.1 hcur]
+    exact
+      { encB := g.encB, winB := g.winB, winA := hwin, accApp := g.accApp, aCtr := g.aCtr, netData := g.netData,
+        netAck := g.netAck, owed := g.owed, accALt := hlt, appLt := g.appLt, done := g.done, fin := g.fin,
+        curSome := fun i hi => (by
+          have : s.cur = some i := hi
+          rw [hcur] at this; cases this),
+        curNone := fun _ => hp.2, sorted := g.sorted, resOk := g.resOk }
+  | some i =>
+    obtain ⟨hnext, r, hr, hctr, hcnt⟩ := g.curSome i hcur
+    have hp := postRecv_ack_pending s.aMrp r bc k hr
+    by_cases hkr : k = r.ctr
+    · -- the matching acknowledgement: the call succeeds
+      have h1 := hp.1 hkr
+      rw [afterAck_done s _ _ i h1.1 hcur h1.2]
+      have hiapp : i ∈ s.app := by
+        rw [g.accApp, hkr, hctr] at hk
+        obtain ⟨j, hj, hje⟩ := List.mem_map.1 hk
+        have : j = i := by omega
+        exact this ▸ hj
+      refine
+        { encB := g.encB, winB := g.winB, winA := hwin, accApp := g.accApp, aCtr := g.aCtr, netData := g.netData,
+          netAck := g.netAck, owed := g.owed, accALt := hlt, appLt := g.appLt, done := g.done, fin := ?_,
+          curSome := ?_, curNone := fun _ => h1.2, sorted := g.sorted, resOk := ?_ }
+      · intro j hj
+        right
+        rcases g.fin j hj with hc | ⟨b, hb⟩
+        · rw [hcur] at hc
+          cases hc
+          exact ⟨true, List.mem_cons_self⟩
+        · exact ⟨b, List.mem_cons_of_mem _ hb⟩
+      · intro j hj
+        have : (none : Option Nat) = some j := hj
+        cases this
+      · intro j hj
+        have hj' : (j, true) ∈ (i, true) :: s.res := hj
+        rcases List.mem_cons.1 hj' with h | h
+        · cases h; exact hiapp
+        · exact g.resOk j h
+    · -- an acknowledgement of something else: nothing changes
+      have h2 := hp.2 hkr
+      rw [afterAck_err s _ _ .duplicate (by rw [h2])]
+      rw [h2]
+      exact
+        { encB := g.encB, winB := g.winB, winA := hwin, accApp := g.accApp, aCtr := g.aCtr, netData := g.netData,
+          netAck := g.netAck, owed := g.owed, accALt := hlt, appLt := g.appLt, done := g.done, fin := g.fin,
+          curSome := g.curSome, curNone := g.curNone, sorted := g.sorted, resOk := g.resOk }
+
 /-- A's stack takes an acknowledgement that is in flight -/
 theorem good_recvAck {a0 : Nat} {s : Sys} {accB accA : List Nat} (g : Good a0 s accB accA) (bc k : Nat)
     (hk : k ∈ accB) (hbc : bc < s.bCtr) :
     ∃ accA', Good a0 (s.recvAck bc k) accB accA' := by
-  have href := C04.step_refines s.aRx accA bc g.winA
-  cases hw : (postRecvPlain s.aRx bc true).2 with
+  cases he : s.enc with
   | false =>
-    rw [hw] at href
-    simp only [Bool.false_eq_true, ↓reduceIte] at href
-    refine ⟨accA, ?_⟩
-    rw [recvAck_rej s bc k g.enc hw]
-    exact
-      { enc := g.enc, winB := g.winB, winA := href.2, accApp := g.accApp, aCtr := g.aCtr, netData := g.netData,
-        netAck := g.netAck, owed := g.owed, accALt := g.accALt, appLt := g.appLt, done := g.done, fin := g.fin,
-        curSome := g.curSome, curNone := g.curNone, sorted := g.sorted, resOk := g.resOk }
-  | true =>
-    rw [hw] at href
-    simp only [↓reduceIte] at href
-    have haccALt : ∀ b ∈ bc :: accA, b < s.bCtr := by
-      intro b hb
-      rcases List.mem_cons.1 hb with rfl | h
-      · exact hbc
-      · exact g.accALt b h
-    refine ⟨bc :: accA, ?_⟩
-    rw [recvAck_acc s bc k g.enc hw]
-    cases hcur : s.cur with
-    | none =>
-      have hrt := g.curNone hcur
-      have hp := postRecv_ack_idle s.aMrp bc k hrt
-      rw [afterAck_idle s _ _ hp.1 hcur]
+    -- unsecured: nothing is claimed about the sender's own window
+    have hno : ∀ (P : Prop), s.enc = true → P := fun P h => by rw [he] at h; cases h
+    cases hw : (window s.aRx bc s.enc).2 with
+    | false =>
+      refine ⟨accA, ?_⟩
+      rw [recvAck_rej s bc k hw]
       exact
-        { enc := g.enc, winB := g.winB, winA := href.2, accApp := g.accApp, aCtr := g.aCtr, netData := g.netData,
-          netAck := g.netAck, owed := g.owed, accALt := haccALt, appLt := g.appLt, done := g.done, fin := g.fin,
-          curSome := fun i hi => (by
-            have : s.cur = some i := hi
-            rw [hcur] at this; cases this),
-          curNone := fun _ => hp.2, sorted := g.sorted, resOk := g.resOk }
-    | some i =>
-      obtain ⟨hnext, r, hr, hctr, hcnt⟩ := g.curSome i hcur
-      have hp := postRecv_ack_pending s.aMrp r bc k hr
-      by_cases hkr : k = r.ctr
-      · -- the matching acknowledgement: the call succeeds
-        have h1 := hp.1 hkr
-        rw [afterAck_done s _ _ i h1.1 hcur h1.2]
-        have hiapp : i ∈ s.app := by
-          rw [g.accApp, hkr, hctr] at hk
-          obtain ⟨j, hj, hje⟩ := List.mem_map.1 hk
-          have : j = i := by omega
-          exact this ▸ hj
-        refine
-          { enc := g.enc, winB := g.winB, winA := href.2, accApp := g.accApp, aCtr := g.aCtr, netData := g.netData,
-            netAck := g.netAck, owed := g.owed, accALt := haccALt, appLt := g.appLt, done := g.done, fin := ?_,
-            curSome := ?_, curNone := fun _ => h1.2, sorted := g.sorted, resOk := ?_ }
-        · intro j hj
-          right
-          rcases g.fin j hj with hc | ⟨b, hb⟩
-          · rw [hcur] at hc
-            cases hc
-            exact ⟨true, List.mem_cons_self⟩
-          · exact ⟨b, List.mem_cons_of_mem _ hb⟩
-        · intro j hj
-          have : (none : Option Nat) = some j := hj
-          cases this
-        · intro j hj
-          have hj' : (j, true) ∈ (i, true) :: s.res := hj
-          rcases List.mem_cons.1 hj' with h | h
-          · cases h; exact hiapp
-          · exact g.resOk j h
-      · -- an acknowledgement of something else: nothing changes
-        have h2 := hp.2 hkr
-        rw [afterAck_err s _ _ .duplicate (by rw [h2])]
-        rw [h2]
-        exact
-          { enc := g.enc, winB := g.winB, winA := href.2, accApp := g.accApp, aCtr := g.aCtr, netData := g.netData,
-            netAck := g.netAck, owed := g.owed, accALt := haccALt, appLt := g.appLt, done := g.done, fin := g.fin,
-            curSome := g.curSome, curNone := g.curNone, sorted := g.sorted, resOk := g.resOk }
+        { encB := g.encB, winB := g.winB, winA := fun h => hno _ h, accApp := g.accApp, aCtr := g.aCtr,
+          netData := g.netData, netAck := g.netAck, owed := g.owed, accALt := fun h => hno _ h, appLt := g.appLt,
+          done := g.done, fin := g.fin, curSome := g.curSome, curNone := g.curNone, sorted := g.sorted,
+          resOk := g.resOk }
+    | true =>
+      refine ⟨accA, ?_⟩
+      rw [recvAck_acc s bc k hw]
+      exact good_afterAck g _ bc k hk (fun h => hno _ h) (fun h => hno _ h)
+  | true =>
+    have hwinA := g.winA he
+    have href := C04.step_refines s.aRx accA bc hwinA
+    have heq : window s.aRx bc s.enc = postRecvPlain s.aRx bc true := by unfold window; rw [he]
+    cases hw : (postRecvPlain s.aRx bc true).2 with
+    | false =>
+      rw [hw] at href
+      simp only [Bool.false_eq_true, ↓reduceIte] at href
+      refine ⟨accA, ?_⟩
+      rw [recvAck_rej s bc k (by rw [heq]; exact hw), heq]
+      exact
+        { encB := g.encB, winB := g.winB, winA := fun _ => href.2, accApp := g.accApp, aCtr := g.aCtr,
+          netData := g.netData, netAck := g.netAck, owed := g.owed, accALt := g.accALt, appLt := g.appLt,
+          done := g.done, fin := g.fin, curSome := g.curSome, curNone := g.curNone, sorted := g.sorted,
+          resOk := g.resOk }
+    | true =>
+      rw [hw] at href
+      simp only [↓reduceIte] at href
+      have haccALt : ∀ b ∈ bc :: accA, b < s.bCtr := by
+        intro b hb
+        rcases List.mem_cons.1 hb with rfl | h
+        · exact hbc
+        · exact g.accALt he b h
+      refine ⟨bc :: accA, ?_⟩
+      rw [recvAck_acc s bc k (by rw [heq]; exact hw), heq]
+      exact good_afterAck g _ bc k hk (fun _ => href.2) (fun _ => haccALt)
 
 /-- **Every transition preserves the invariant.** -/
 theorem good_step {a0 : Nat} {s s' : Sys} {accB accA : List Nat} (g : Good a0 s accB accA) (e : Ev)
@@ -541,6 +613,73 @@ theorem good_run {a0 : Nat} (evs : List Ev) : ∀ {s s' : Sys} {accB accA : List
       rw [hs] at h
       obtain ⟨b1, a1, g1⟩ := good_step g e hs
       exact ih g1 h
+
+/-! ## The session kind never changes -/
+
+theorem recvData_enc (s : Sys) (c i : Nat) : (s.recvData c i).enc = s.enc := by
+  unfold Sys.recvData
+  simp only
+  split <;> rfl
+
+theorem afterAck_enc (s : Sys) (rx : RxState) (p : Mrp × Option Err) : (s.afterAck rx p).enc = s.enc := by
+  unfold Sys.afterAck
+  repeat' split
+  all_goals rfl
+
+theorem recvAck_enc (s : Sys) (bc k : Nat) : (s.recvAck bc k).enc = s.enc := by
+  unfold Sys.recvAck
+  simp only
+  split
+  · rfl
+  · exact afterAck_enc _ _ _
+
+theorem step_enc {s s' : Sys} {e : Ev} (h : step s e = some s') : s'.enc = s.enc := by
+  cases e with
+  | send =>
+    simp only [step, Sys.sendStep] at h
+    repeat' (split at h)
+    all_goals first | (cases h; done) | (cases h; rfl)
+  | retx =>
+    simp only [step, Sys.resendStep] at h
+    repeat' (split at h)
+    all_goals first | (cases h; done) | (cases h; rfl)
+  | giveup =>
+    simp only [step, Sys.resendStep] at h
+    repeat' (split at h)
+    all_goals first | (cases h; done) | (cases h; rfl)
+  | ackB =>
+    simp only [step, Sys.ackStep] at h
+    repeat' (split at h)
+    all_goals first | (cases h; done) | (cases h; rfl)
+  | drop d =>
+    simp only [step] at h
+    split at h
+    · cases h; rfl
+    · cases h
+  | dup d =>
+    simp only [step] at h
+    split at h
+    · cases h; rfl
+    · cases h
+  | deliver d =>
+    simp only [step] at h
+    split at h
+    · cases d with
+      | data c i => simp only [Option.some.injEq] at h; subst h; exact recvData_enc _ _ _
+      | ack bc k => simp only [Option.some.injEq] at h; subst h; exact recvAck_enc _ _ _
+    · cases h
+
+theorem run_enc (evs : List Ev) : ∀ {s s' : Sys}, run s evs = some s' → s'.enc = s.enc := by
+  induction evs with
+  | nil => intro s s' h; simp only [run, Option.some.injEq] at h; rw [h]
+  | cons e es ih =>
+    intro s s' h
+    simp only [run] at h
+    cases hs : step s e with
+    | none => rw [hs] at h; cases h
+    | some s1 =>
+      rw [hs] at h
+      rw [ih h, step_enc hs]
 
 /-! ## The trace monitor only takes transitions of the model -/
 
